@@ -2,7 +2,7 @@
 """Generates /verif/MANIFEST.json from the table below (single source of truth)."""
 import json, sys
 
-HOOK_COMMITS = ["99d9b59", "b32f351", "81bce45"]
+HOOK_COMMITS = ["99d9b59", "b32f351", "81bce45", "bd0de94"]
 
 WALK_NOTE = ("Trusted base: the reference model refchess (validated against the published perft tables at the start "
              "of every run), the binding layer (public API only), rustc. Bounded: only the listed seeds/families/depths; "
@@ -60,6 +60,12 @@ CHECKS.update({
  "C08": dict(tech="exhaustive enumeration of positions x depths x search histories, each compared with a cache-free exhaustive minimax oracle",
    text="Brand-new context: seed roots, their neighbours and small endgames at depth up to 5; reused context: ALL histories search - any move - any reply - search (two rounds in thorough) from six seeds, plus engine-vs-engine lines; every search's score and move are compared with an un-pruned, un-cached minimax over the model's moves using the engine's leaf evaluation.",
    ref="DESIGN.md §4 C08", note="Leaf evaluation is the engine's own (C18/C06 cover it); clocks stay far from the draw threshold."),
+})
+
+CHECKS.update({
+ "C09": dict(tech="stateless model checking of the real rayon search tasks under a controlled scheduler with iterative preemption bounding",
+   text="For each configuration (position, depth, empty or warmed cache) the real alpha_beta_search runs inside its own rayon pool with every root task parked at each shared-cache read / store; all schedules with at most p preemptions (p = 1 quick, 2 thorough on the small ones) and all / deviation-bounded task orders are enumerated by re-execution; the (move, score) outcome must be unique, no schedule may panic or hang, and free-running pools of 1,2,3,8,16,64 threads must give the same outcome.",
+   ref="DESIGN.md §3.7, §4 C09", note="Granularity is one shared-cache operation (not individual lock acquisitions). In reduced configurations only operations on keys touched by two tasks are choice points (classification iterated to a fixpoint; validated against the all-points mode on the small configurations). Determinism of the harness is checked by replaying the default schedule twice per configuration."),
 })
 
 NOT_YET = {}
